@@ -1,3 +1,4 @@
+import GBProofs.FormulaProofs
 import GBProofs.Props.C06
 import GBProofs.Props.C15
 import GBProofs.SmoothInstance
